@@ -1,6 +1,999 @@
-//! C18 layer C: web3id::v1 presentations and anchored-request verification.
-use crate::c18::C;
-use concordium_base::id::types::GlobalContext;
-use mc_core::{Cli, Report};
+//! C18 layer C: `web3id::v1` presentations over account-based and identity-based
+//! credentials (`RequestV1::prove_with_rng` / `PresentationV1::verify`) and the anchored
+//! request verification (`verify_presentation_with_request_anchor`).
 
-pub fn layer_c(_report: &Report, _cli: &Cli, _global: &GlobalContext<C>) {}
+use crate::c18::*;
+use crate::c18web3::{acc_cred, atom_alterations, now, wbump, web3_alphabets, wn, ws, AccCred, W};
+use crate::util::*;
+use concordium_base::{
+    base::CredentialRegistrationID,
+    common::{from_bytes, to_bytes},
+    hashes,
+    id::{
+        constants::IpPairing,
+        id_proof_types::*,
+        identity_provider::sign_identity_object_v1_with_rng,
+        test::{test_create_ars, test_create_id_use_data, test_create_ip_info, test_create_pio_v1},
+        types::*,
+    },
+    pedersen_commitment::{Randomness as PedersenRandomness, Value},
+    web3id::{
+        did::Network,
+        v1::{
+            anchor::{
+                verify_presentation_with_request_anchor, ContextLabel, CredentialValidityType, IdentityCredentialType, IdentityProviderDid, LabeledContextProperty, Nonce, PresentationVerificationResult, RequestedIdentitySubjectClaims, RequestedStatement, RequestedSubjectClaims, UnfilledContextInformation,
+                VerificationContext, VerificationMaterialWithValidity, VerificationRequest, VerificationRequestAnchorAndBlockHash, VerificationRequestData,
+            },
+            *,
+        },
+    },
+};
+use mc_core::{Cli, Report, Tier};
+use rayon::prelude::*;
+use serde_json::{json, Value as J};
+use std::collections::BTreeMap;
+
+type P = IpPairing;
+type Pres = PresentationV1<P, C, W>;
+type Material = CredentialVerificationMaterial<P, C>;
+type StmtV1 = AtomicStatementV1<C, AttributeTag, W>;
+
+/// Abstract v1 statement: `Value(x)` is "attribute equals x" (which reveals it).
+#[derive(Clone, Debug, PartialEq)]
+pub enum StV1 {
+    Value(W),
+    Other(St<W>),
+}
+
+#[derive(Clone, Debug, PartialEq)]
+pub struct AtomV1 {
+    pub tag: u8,
+    pub st:  StV1,
+}
+
+fn describe_v1(a: &AtomV1) -> J { json!({"tag": a.tag, "statement": format!("{:?}", a.st)}) }
+
+fn mk_v1(a: &AtomV1) -> StmtV1 {
+    let tag = AttributeTag(a.tag);
+    match &a.st {
+        StV1::Value(x) => AtomicStatementV1::AttributeValue(AttributeValueStatement { attribute_tag: tag, attribute_value: x.clone(), _phantom: Default::default() }),
+        StV1::Other(St::Range(lo, hi)) => AtomicStatementV1::AttributeInRange(AttributeInRangeStatement { attribute_tag: tag, lower: lo.clone(), upper: hi.clone(), _phantom: Default::default() }),
+        StV1::Other(St::InSet(s)) => AtomicStatementV1::AttributeInSet(AttributeInSetStatement { attribute_tag: tag, set: s.iter().cloned().collect(), _phantom: Default::default() }),
+        StV1::Other(St::NotInSet(s)) => AtomicStatementV1::AttributeNotInSet(AttributeNotInSetStatement { attribute_tag: tag, set: s.iter().cloned().collect(), _phantom: Default::default() }),
+        StV1::Other(St::Reveal) => unreachable!("v1 has no bare reveal statement"),
+    }
+}
+
+/// v1 alphabet around a value: "equals x" for every x of the neighbour alphabet, plus the
+/// range / set statements of the common alphabet.
+fn atoms_v1(tag: u8, v: &W, nb: &[W], full_pairs: bool) -> Vec<AtomV1> {
+    let mut out: Vec<AtomV1> = nb.iter().map(|x| AtomV1 { tag, st: StV1::Value(x.clone()) }).collect();
+    out.extend(atoms_around(tag, v, nb, full_pairs).into_iter().filter(|a| a.st != St::Reveal).map(|a| AtomV1 { tag, st: StV1::Other(a.st) }));
+    out
+}
+
+fn reduced_v1(tag: u8, v: &W, nb: &[W]) -> Vec<AtomV1> {
+    let mut out = vec![AtomV1 { tag, st: StV1::Value(v.clone()) }, AtomV1 { tag, st: StV1::Value(nb[0].clone()) }];
+    out.extend(reduced_atoms(tag, v, nb).into_iter().filter(|a| a.st != St::Reveal).map(|a| AtomV1 { tag, st: StV1::Other(a.st) }));
+    out
+}
+
+#[derive(Clone, Copy, PartialEq, Debug)]
+enum Kind {
+    Account,
+    Identity,
+}
+
+/// Truth of a statement list. For identity-based credentials an "equals x" statement on a
+/// tag that no range / set statement of the list touches is answered by revealing the
+/// attribute, and compared structurally; a value with the same embedding but another
+/// representation (`String("")` vs `Numeric(0)`) is then an encoding collision on which
+/// nothing is required (class `Wide`).
+fn truth_v1(kind: Kind, atoms: &[AtomV1], values: &BTreeMap<AttributeTag, W>) -> Truth {
+    conj(atoms.iter().map(|a| {
+        let v = &values[&AttributeTag(a.tag)];
+        match &a.st {
+            StV1::Other(st) => truth(st, v),
+            StV1::Value(x) => {
+                let committed = kind == Kind::Account || atoms.iter().any(|b| b.tag == a.tag && matches!(b.st, StV1::Other(_)));
+                if x == v {
+                    Truth::True
+                } else if fe_int(x) == fe_int(v) {
+                    if committed {
+                        Truth::True
+                    } else {
+                        Truth::Wide
+                    }
+                } else {
+                    Truth::False
+                }
+            }
+        }
+    }))
+}
+
+pub struct IdCred {
+    pub ip_info:     IpInfo<P>,
+    pub ars_infos:   ArInfos<C>,
+    pub id_object:   IdentityObjectV1<P, C, W>,
+    /// `IdObjectUseData` holds `Rc`s; it is kept as JSON and rebuilt where needed
+    pub id_use_json: String,
+    pub values:      BTreeMap<AttributeTag, W>,
+}
+
+pub fn id_cred(seed: u64, salt: u64, global: &GlobalContext<C>) -> IdCred {
+    let mut r = rng(seed, 18_600 + salt);
+    let num_ars = 3;
+    let IpData { public_ip_info: ip_info, ip_secret_key, .. } = test_create_ip_info(&mut r, num_ars, 10);
+    let (ars, _) = test_create_ars(&global.on_chain_commitment_key.g, num_ars, &mut r);
+    let ars_infos = ArInfos { anonymity_revokers: ars };
+    let id_use = test_create_id_use_data(&mut r);
+    let (_ctx, pio, _) = test_create_pio_v1(&id_use, &ip_info, &ars_infos.anonymity_revokers, global, num_ars, &mut r);
+    let values: BTreeMap<AttributeTag, W> = web3_alphabets().into_iter().enumerate().map(|(t, (v, _))| (AttributeTag(t as u8), v)).collect();
+    let alist = AttributeList { valid_to: YearMonth::new(2024, 5).unwrap(), created_at: YearMonth::new(2020, 5).unwrap(), max_accounts: 237, alist: values.clone(), _phantom: Default::default() };
+    let signature = sign_identity_object_v1_with_rng(&pio, &ip_info, &alist, &ip_secret_key, &mut r).expect("identity provider signs");
+    let id_object = IdentityObjectV1 { pre_identity_object: pio, alist, signature };
+    IdCred { ip_info, ars_infos, id_object, id_use_json: serde_json::to_string(&id_use).unwrap(), values }
+}
+
+pub enum CredV1 {
+    Acc(AccCred),
+    Id(IdCred),
+}
+
+impl CredV1 {
+    fn kind(&self) -> Kind {
+        match self {
+            CredV1::Acc(_) => Kind::Account,
+            CredV1::Id(_) => Kind::Identity,
+        }
+    }
+
+    fn values(&self) -> &BTreeMap<AttributeTag, W> {
+        match self {
+            CredV1::Acc(a) => &a.values,
+            CredV1::Id(i) => &i.values,
+        }
+    }
+
+    fn issuer(&self) -> IpIdentity {
+        match self {
+            CredV1::Acc(a) => a.issuer,
+            CredV1::Id(i) => i.ip_info.ip_identity,
+        }
+    }
+
+    fn claims(&self, atoms: &[AtomV1]) -> SubjectClaims<C, W> {
+        let statements = atoms.iter().map(mk_v1).collect();
+        match self {
+            CredV1::Acc(a) => SubjectClaims::Account(AccountBasedSubjectClaims { network: Network::Testnet, issuer: a.issuer, cred_id: a.cred_id, statements }),
+            CredV1::Id(i) => SubjectClaims::Identity(IdentityBasedSubjectClaims { network: Network::Testnet, issuer: i.ip_info.ip_identity, statements }),
+        }
+    }
+
+    fn material(&self) -> Material {
+        match self {
+            CredV1::Acc(a) => CredentialVerificationMaterial::Account(AccountCredentialVerificationMaterial { issuer: a.issuer, attribute_commitments: a.cmms.clone() }),
+            CredV1::Id(i) => CredentialVerificationMaterial::Identity(IdentityCredentialVerificationMaterial { ip_info: i.ip_info.clone(), ars_infos: i.ars_infos.clone() }),
+        }
+    }
+}
+
+pub fn block_hash() -> hashes::BlockHash { hashes::BlockHash::from([2u8; 32]) }
+
+pub fn context() -> ContextInformation {
+    ContextInformation {
+        given:     vec![
+            ContextProperty { label: "Nonce".into(), context: hex::encode([1u8; 32]) },
+            ContextProperty { label: "ConnectionID".into(), context: "testconnection".into() },
+            ContextProperty { label: "ResourceID".into(), context: "testresource".into() },
+        ],
+        requested: vec![ContextProperty { label: "BlockHash".into(), context: block_hash().to_string() }],
+    }
+}
+
+fn prove_v1(global: &GlobalContext<C>, ctx: &ContextInformation, creds: &[(&CredV1, Vec<AtomV1>)], seed: u64, at: chrono::DateTime<chrono::Utc>) -> (RequestV1<C, W>, Result<Pres, ProveError>) {
+    let request = RequestV1 { context: ctx.clone(), subject_claims: creds.iter().map(|(c, a)| c.claims(a)).collect() };
+    let rands: Vec<BTreeMap<AttributeTag, PedersenRandomness<C>>> = creds
+        .iter()
+        .map(|(c, _)| match c {
+            CredV1::Acc(a) => a.rand_s.iter().map(|(t, s)| (*t, PedersenRandomness::<C>::new(*s))).collect(),
+            _ => BTreeMap::new(),
+        })
+        .collect();
+    let uses: Vec<Option<IdObjectUseData<P, C>>> = creds
+        .iter()
+        .map(|(c, _)| match c {
+            CredV1::Id(i) => Some(serde_json::from_str(&i.id_use_json).unwrap()),
+            _ => None,
+        })
+        .collect();
+    let inputs: Vec<CredentialProofPrivateInputs<P, C, W>> = creds
+        .iter()
+        .enumerate()
+        .map(|(k, (c, _))| match c {
+            CredV1::Acc(a) => CredentialProofPrivateInputs::Account(AccountCredentialProofPrivateInputs { issuer: a.issuer, attribute_values: &a.values, attribute_randomness: &rands[k] }),
+            CredV1::Id(i) => CredentialProofPrivateInputs::Identity(IdentityCredentialProofPrivateInputs { ip_context: IpContextOnly { ip_info: &i.ip_info, ars_infos: &i.ars_infos.anonymity_revokers }, id_object: &i.id_object, id_object_use_data: uses[k].as_ref().unwrap() }),
+        })
+        .collect();
+    let res = request.clone().prove_with_rng(global, inputs.into_iter(), &mut rng(seed, 18_700), at);
+    (request, res)
+}
+
+fn truth_case(report: &Report, cli: &Cli, global: &GlobalContext<C>, cred: &CredV1, atoms: &[AtomV1]) -> Result<(), (String, J)> {
+    let t = truth_v1(cred.kind(), atoms, cred.values());
+    let (request, res) = prove_v1(global, &context(), &[(cred, atoms.to_vec())], cli.seed, now());
+    report.trace(1);
+    let material = [cred.material()];
+    let verdict = res.as_ref().ok().map(|p| p.verify(global, material.iter()));
+    let verified = matches!(verdict, Some(Ok(_)));
+    let empty_not_in = |a: &AtomV1| a.st == StV1::Other(St::NotInSet(vec![]));
+    match t {
+        Truth::True => {
+            let Ok(pres) = res else {
+                let rest: Vec<_> = atoms.iter().filter(|a| !empty_not_in(a)).cloned().collect();
+                if rest.len() < atoms.len() {
+                    let ok = rest.is_empty() || {
+                        let (_, r2) = prove_v1(global, &context(), &[(cred, rest)], cli.seed, now());
+                        r2.map(|p| p.verify(global, material.iter()).is_ok()).unwrap_or(false)
+                    };
+                    if ok {
+                        report.violation("true-statement-not-provable", not_in_empty_set_witness("web3id-v1-presentation"), json!({"example": atoms.iter().map(describe_v1).collect::<Vec<_>>()}));
+                        return Ok(());
+                    }
+                }
+                return fail("true-statement-not-provable", json!({"error": format!("{:?}", res.err())}));
+            };
+            match verdict.unwrap() {
+                Ok(req) => {
+                    if req != request {
+                        return fail("verified-request-differs-from-the-request", json!({}));
+                    }
+                }
+                Err(e) => return fail("true-statement-proof-rejected", json!({"error": format!("{e:?}")})),
+            }
+            // identity-based: attributes that no statement asked to reveal stay hidden, and a
+            // revealed one is the issued value
+            if let (CredentialV1::Identity(c), CredV1::Id(i)) = (&pres.verifiable_credentials[0], cred) {
+                for (tag, a) in &c.proof.proof_value.identity_attributes {
+                    if let IdentityAttribute::Revealed(x) = a {
+                        if x != &i.values[tag] {
+                            return fail("revealed-value-differs-from-committed", json!({"tag": tag.0}));
+                        }
+                        if !atoms.iter().any(|s| s.tag == tag.0 && matches!(s.st, StV1::Value(_))) {
+                            return fail("attribute-revealed-without-a-statement-asking-for-it", json!({"tag": tag.0}));
+                        }
+                    }
+                }
+            }
+            // the binary form carries the same presentation
+            match from_bytes::<Pres, _>(&mut &to_bytes(&pres)[..]) {
+                Ok(back) if back == pres => {}
+                _ => return fail("binary-round-trip-changes-presentation", json!({})),
+            }
+            report.outcome("true: proved and verified", 1);
+        }
+        Truth::False => {
+            if verified {
+                return fail("false-statement-verifies", json!({}));
+            }
+            report.outcome(if res.is_ok() { "false: prover output rejected" } else { "false: not provable" }, 1);
+        }
+        Truth::Wide => {
+            report.outcome(if verified { "no requirement (wide range / encoding collision): verified" } else if res.is_ok() { "no requirement (wide range / encoding collision): prover output rejected" } else { "no requirement (wide range / encoding collision): not provable" }, 1);
+        }
+    }
+    Ok(())
+}
+
+#[derive(Clone, Copy, PartialEq)]
+enum Expect {
+    Reject,
+    /// credentials of a v1 presentation are proved independently of each other: a
+    /// presentation with fewer / reordered credentials is a valid presentation of another
+    /// request, which the verifier reads back
+    RejectOrOtherRequest,
+}
+
+type PMut = Box<dyn Fn(&mut Pres, &mut Vec<Material>) + Send + Sync>;
+
+fn to_v1(a: &Atom<W>, cur: &AtomV1) -> AtomV1 {
+    match &a.st {
+        St::Reveal => AtomV1 { tag: a.tag, st: cur.st.clone() },
+        st => AtomV1 { tag: a.tag, st: StV1::Other(st.clone()) },
+    }
+}
+
+/// every single-component alteration of a v1 statement
+fn alterations_v1(a: &AtomV1, ntags: u8) -> Vec<(String, AtomV1)> {
+    match &a.st {
+        StV1::Value(x) => {
+            let mut out = vec![];
+            for t in 0..ntags {
+                if t != a.tag {
+                    out.push((format!("tag -> {t}"), AtomV1 { tag: t, st: a.st.clone() }));
+                }
+            }
+            for up in [false, true] {
+                if let Some(nv) = wbump(x, up) {
+                    out.push((format!("value {}", if up { "+1" } else { "-1" }), AtomV1 { tag: a.tag, st: StV1::Value(nv) }));
+                }
+            }
+            out.push(("equals -> in singleton set".into(), AtomV1 { tag: a.tag, st: StV1::Other(St::InSet(vec![x.clone()])) }));
+            out
+        }
+        StV1::Other(st) => atom_alterations(&Atom { tag: a.tag, st: st.clone() }, ntags).into_iter().filter(|(_, x)| x.st != St::Reveal).map(|(l, x)| (l, to_v1(&x, a))).collect(),
+    }
+}
+
+fn stmts_mut(c: &mut CredentialV1<P, C, W>) -> &mut Vec<StmtV1> {
+    match c {
+        CredentialV1::Account(a) => &mut a.subject.statements,
+        CredentialV1::Identity(i) => &mut i.subject.statements,
+    }
+}
+
+fn proofs_mut(c: &mut CredentialV1<P, C, W>) -> &mut Vec<AtomicProofV1<C>> {
+    match c {
+        CredentialV1::Account(a) => &mut a.proof.proof_value.statement_proofs,
+        CredentialV1::Identity(i) => &mut i.proof.proof_value.statement_proofs,
+    }
+}
+
+fn perturbations(cli: &Cli, global: &GlobalContext<C>, creds: &[(&CredV1, Vec<AtomV1>)], other: &Pres, spare_acc: &AccCred, spare_id: &IdCred) -> Vec<(String, Expect, PMut)> {
+    let mut m: Vec<(String, Expect, PMut)> = vec![];
+    macro_rules! m {
+        ($name:expr, $e:expr, $f:expr) => {
+            m.push(($name.to_string(), $e, Box::new($f)));
+        };
+    }
+    use Expect::*;
+    let ntags = web3_alphabets().len() as u8;
+    // --- context ---------------------------------------------------------------------------------
+    m!("context: given[0] value altered", Reject, |p: &mut Pres, _: &mut Vec<Material>| p.presentation_context.given[0].context.push('0'));
+    m!("context: given[0] label altered", Reject, |p: &mut Pres, _: &mut Vec<Material>| p.presentation_context.given[0].label = "PaymentHash".into());
+    m!("context: given properties 0 and 1 swapped", Reject, |p: &mut Pres, _: &mut Vec<Material>| p.presentation_context.given.swap(0, 1));
+    m!("context: last given property moved to requested", Reject, |p: &mut Pres, _: &mut Vec<Material>| {
+        let x = p.presentation_context.given.pop().unwrap();
+        p.presentation_context.requested.push(x);
+    });
+    m!("context: requested property moved to given", Reject, |p: &mut Pres, _: &mut Vec<Material>| {
+        let x = p.presentation_context.requested.pop().unwrap();
+        p.presentation_context.given.push(x);
+    });
+    m!("context: requested block hash altered", Reject, |p: &mut Pres, _: &mut Vec<Material>| p.presentation_context.requested[0].context = hashes::BlockHash::from([3u8; 32]).to_string());
+    m!("context: given property dropped", Reject, |p: &mut Pres, _: &mut Vec<Material>| {
+        p.presentation_context.given.pop();
+    });
+    m!("context: label and value of given[1] re-split", Reject, |p: &mut Pres, _: &mut Vec<Material>| {
+        let g = &mut p.presentation_context.given[1];
+        let c = g.context.remove(0);
+        g.label.push(c);
+    });
+    m!("context: empty property appended", Reject, |p: &mut Pres, _: &mut Vec<Material>| p.presentation_context.given.push(ContextProperty { label: String::new(), context: String::new() }));
+    {
+        let mut g2 = global.clone();
+        g2.genesis_string.push('x');
+        let _ = g2;
+    }
+    for (i, (cred, atoms)) in creds.iter().enumerate() {
+        // --- statements and their proofs ---------------------------------------------------------
+        for (k, a) in atoms.iter().enumerate() {
+            for (label, alt) in alterations_v1(a, ntags) {
+                let s = mk_v1(&alt);
+                m!(format!("credential {i} statement {k}: {label}"), Reject, move |p: &mut Pres, _: &mut Vec<Material>| stmts_mut(&mut p.verifiable_credentials[i])[k] = s.clone());
+            }
+            for j in k + 1..atoms.len() {
+                if atoms[k] != atoms[j] {
+                    m!(format!("credential {i}: statement proofs {k} and {j} swapped"), Reject, move |p: &mut Pres, _: &mut Vec<Material>| proofs_mut(&mut p.verifiable_credentials[i]).swap(k, j));
+                }
+            }
+            let mut oc = other.verifiable_credentials[i].clone();
+            let op = proofs_mut(&mut oc)[k].clone();
+            if op != AtomicProofV1::AttributeValueAlreadyRevealed {
+                m!(format!("credential {i} statement proof {k}: taken from a presentation with another context"), Reject, move |p: &mut Pres, _: &mut Vec<Material>| proofs_mut(&mut p.verifiable_credentials[i])[k] = op.clone());
+            }
+        }
+        m!(format!("credential {i}: last statement dropped (proofs kept)"), Reject, move |p: &mut Pres, _: &mut Vec<Material>| {
+            stmts_mut(&mut p.verifiable_credentials[i]).pop();
+        });
+        m!(format!("credential {i}: last statement proof dropped (statements kept)"), Reject, move |p: &mut Pres, _: &mut Vec<Material>| {
+            proofs_mut(&mut p.verifiable_credentials[i]).pop();
+        });
+        m!(format!("credential {i}: last statement dropped with its proof"), Reject, move |p: &mut Pres, _: &mut Vec<Material>| {
+            stmts_mut(&mut p.verifiable_credentials[i]).pop();
+            proofs_mut(&mut p.verifiable_credentials[i]).pop();
+        });
+        m!(format!("credential {i}: last statement and proof duplicated"), Reject, move |p: &mut Pres, _: &mut Vec<Material>| {
+            let s = stmts_mut(&mut p.verifiable_credentials[i]).last().unwrap().clone();
+            stmts_mut(&mut p.verifiable_credentials[i]).push(s);
+            let s = proofs_mut(&mut p.verifiable_credentials[i]).last().unwrap().clone();
+            proofs_mut(&mut p.verifiable_credentials[i]).push(s);
+        });
+        // --- metadata bound by the transcript ---------------------------------------------------------
+        m!(format!("credential {i}: creation time + 1 ms"), Reject, move |p: &mut Pres, _: &mut Vec<Material>| match &mut p.verifiable_credentials[i] {
+            CredentialV1::Account(a) => a.proof.created_at += chrono::Duration::milliseconds(1),
+            CredentialV1::Identity(x) => x.proof.created_at += chrono::Duration::milliseconds(1),
+        });
+        m!(format!("credential {i}: network mainnet"), Reject, move |p: &mut Pres, _: &mut Vec<Material>| match &mut p.verifiable_credentials[i] {
+            CredentialV1::Account(a) => a.subject.network = Network::Mainnet,
+            CredentialV1::Identity(x) => x.subject.network = Network::Mainnet,
+        });
+        m!(format!("credential {i}: issuer + 1"), Reject, move |p: &mut Pres, _: &mut Vec<Material>| match &mut p.verifiable_credentials[i] {
+            CredentialV1::Account(a) => a.issuer = IpIdentity(a.issuer.0 + 1),
+            CredentialV1::Identity(x) => x.issuer = IpIdentity(x.issuer.0 + 1),
+        });
+        m!(format!("credential {i}: issuer + 1, also in the verification material"), Reject, move |p: &mut Pres, vm: &mut Vec<Material>| {
+            match &mut p.verifiable_credentials[i] {
+                CredentialV1::Account(a) => a.issuer = IpIdentity(a.issuer.0 + 1),
+                CredentialV1::Identity(x) => x.issuer = IpIdentity(x.issuer.0 + 1),
+            }
+            match &mut vm[i] {
+                CredentialVerificationMaterial::Account(a) => a.issuer = IpIdentity(a.issuer.0 + 1),
+                CredentialVerificationMaterial::Identity(x) => x.ip_info.ip_identity = IpIdentity(x.ip_info.ip_identity.0 + 1),
+            }
+        });
+        match cred {
+            CredV1::Acc(acc) => {
+                let oc = spare_acc.cred_id;
+                m!(format!("credential {i}: cred_id of another credential"), Reject, move |p: &mut Pres, _: &mut Vec<Material>| {
+                    if let CredentialV1::Account(a) = &mut p.verifiable_credentials[i] {
+                        a.subject.cred_id = oc;
+                    }
+                });
+                m!(format!("material {i}: issuer + 1"), Reject, move |_: &mut Pres, vm: &mut Vec<Material>| {
+                    if let CredentialVerificationMaterial::Account(a) = &mut vm[i] {
+                        a.issuer = IpIdentity(a.issuer.0 + 1);
+                    }
+                });
+                let key = global.on_chain_commitment_key;
+                let used: std::collections::BTreeSet<u8> = atoms.iter().map(|a| a.tag).collect();
+                for t in used {
+                    let tag = AttributeTag(t);
+                    let c2 = key.hide(&Value::<C>::new(acc.values[&tag].to_field_element()), &PedersenRandomness::<C>::generate(&mut rng(cli.seed, 18_800 + t as u64)));
+                    m!(format!("material {i}: commitment {t} to the same value with other randomness"), Reject, move |_: &mut Pres, vm: &mut Vec<Material>| {
+                        if let CredentialVerificationMaterial::Account(a) = &mut vm[i] {
+                            a.attribute_commitments.insert(tag, c2);
+                        }
+                    });
+                    m!(format!("material {i}: commitment {t} removed"), Reject, move |_: &mut Pres, vm: &mut Vec<Material>| {
+                        if let CredentialVerificationMaterial::Account(a) = &mut vm[i] {
+                            a.attribute_commitments.remove(&tag);
+                        }
+                    });
+                }
+                let sc = spare_acc.cmms.clone();
+                m!(format!("material {i}: commitments of another credential with the same values"), Reject, move |_: &mut Pres, vm: &mut Vec<Material>| {
+                    if let CredentialVerificationMaterial::Account(a) = &mut vm[i] {
+                        a.attribute_commitments = sc.clone();
+                    }
+                });
+                let im = CredentialVerificationMaterial::Identity(IdentityCredentialVerificationMaterial { ip_info: spare_id.ip_info.clone(), ars_infos: spare_id.ars_infos.clone() });
+                m!(format!("material {i}: identity material for an account credential"), Reject, move |_: &mut Pres, vm: &mut Vec<Material>| vm[i] = im.clone());
+            }
+            CredV1::Id(idc) => {
+                m!(format!("credential {i}: validity.valid_to one month later"), Reject, move |p: &mut Pres, _: &mut Vec<Material>| {
+                    if let CredentialV1::Identity(x) = &mut p.verifiable_credentials[i] {
+                        x.validity.valid_to = YearMonth::new(x.validity.valid_to.year, x.validity.valid_to.month + 1).unwrap();
+                    }
+                });
+                m!(format!("credential {i}: validity.created_at one month earlier"), Reject, move |p: &mut Pres, _: &mut Vec<Material>| {
+                    if let CredentialV1::Identity(x) = &mut p.verifiable_credentials[i] {
+                        x.validity.created_at = YearMonth::new(x.validity.created_at.year, x.validity.created_at.month - 1).unwrap();
+                    }
+                });
+                // the ephemeral id = threshold + encrypted identity shares
+                m!(format!("credential {i}: ephemeral id, threshold byte + 1"), Reject, move |p: &mut Pres, _: &mut Vec<Material>| {
+                    if let CredentialV1::Identity(x) = &mut p.verifiable_credentials[i] {
+                        x.subject.cred_id.0[0] += 1;
+                    }
+                });
+                m!(format!("credential {i}: ephemeral id, threshold byte - 1"), Reject, move |p: &mut Pres, _: &mut Vec<Material>| {
+                    if let CredentialV1::Identity(x) = &mut p.verifiable_credentials[i] {
+                        x.subject.cred_id.0[0] -= 1;
+                    }
+                });
+                m!(format!("credential {i}: ephemeral id truncated"), Reject, move |p: &mut Pres, _: &mut Vec<Material>| {
+                    if let CredentialV1::Identity(x) = &mut p.verifiable_credentials[i] {
+                        x.subject.cred_id.0.pop();
+                    }
+                });
+                m!(format!("credential {i}: ephemeral id, zero byte appended"), Reject, move |p: &mut Pres, _: &mut Vec<Material>| {
+                    if let CredentialV1::Identity(x) = &mut p.verifiable_credentials[i] {
+                        x.subject.cred_id.0.push(0);
+                    }
+                });
+                let oid = match &other.verifiable_credentials[i] {
+                    CredentialV1::Identity(x) => x.clone(),
+                    _ => unreachable!(),
+                };
+                let o1 = oid.clone();
+                m!(format!("credential {i}: ephemeral id of another presentation of the same identity"), Reject, move |p: &mut Pres, _: &mut Vec<Material>| {
+                    if let CredentialV1::Identity(x) = &mut p.verifiable_credentials[i] {
+                        x.subject.cred_id = o1.subject.cred_id.clone();
+                    }
+                });
+                // identity attributes
+                for (tag, attr) in oid.proof.proof_value.identity_attributes.iter() {
+                    let tag = *tag;
+                    match attr {
+                        IdentityAttribute::Committed(c) => {
+                            let c = *c;
+                            m!(format!("credential {i}: attribute {} commitment of another presentation", tag.0), Reject, move |p: &mut Pres, _: &mut Vec<Material>| {
+                                if let CredentialV1::Identity(x) = &mut p.verifiable_credentials[i] {
+                                    x.proof.proof_value.identity_attributes.insert(tag, IdentityAttribute::Committed(c));
+                                }
+                            });
+                            m!(format!("credential {i}: committed attribute {} declared merely known", tag.0), Reject, move |p: &mut Pres, _: &mut Vec<Material>| {
+                                if let CredentialV1::Identity(x) = &mut p.verifiable_credentials[i] {
+                                    x.proof.proof_value.identity_attributes.insert(tag, IdentityAttribute::Known);
+                                }
+                            });
+                        }
+                        IdentityAttribute::Revealed(v) => {
+                            for up in [false, true] {
+                                if let Some(nv) = wbump(v, up) {
+                                    m!(format!("credential {i}: revealed attribute {} {}", tag.0, if up { "+1" } else { "-1" }), Reject, move |p: &mut Pres, _: &mut Vec<Material>| {
+                                        if let CredentialV1::Identity(x) = &mut p.verifiable_credentials[i] {
+                                            x.proof.proof_value.identity_attributes.insert(tag, IdentityAttribute::Revealed(nv.clone()));
+                                        }
+                                    });
+                                }
+                            }
+                            m!(format!("credential {i}: revealed attribute {} declared merely known", tag.0), Reject, move |p: &mut Pres, _: &mut Vec<Material>| {
+                                if let CredentialV1::Identity(x) = &mut p.verifiable_credentials[i] {
+                                    x.proof.proof_value.identity_attributes.insert(tag, IdentityAttribute::Known);
+                                }
+                            });
+                        }
+                        IdentityAttribute::Known => {
+                            let v = idc.values[&tag].clone();
+                            m!(format!("credential {i}: known attribute {} declared revealed (true value)", tag.0), Reject, move |p: &mut Pres, _: &mut Vec<Material>| {
+                                if let CredentialV1::Identity(x) = &mut p.verifiable_credentials[i] {
+                                    x.proof.proof_value.identity_attributes.insert(tag, IdentityAttribute::Revealed(v.clone()));
+                                }
+                            });
+                            m!(format!("credential {i}: known attribute {} removed", tag.0), Reject, move |p: &mut Pres, _: &mut Vec<Material>| {
+                                if let CredentialV1::Identity(x) = &mut p.verifiable_credentials[i] {
+                                    x.proof.proof_value.identity_attributes.remove(&tag);
+                                }
+                            });
+                        }
+                    }
+                }
+                // identity attribute proofs: each component replaced by that of another
+                // presentation of the same identity (same statements, other context)
+                let o2 = oid.clone();
+                m!(format!("credential {i}: blinded signature of another presentation"), Reject, move |p: &mut Pres, _: &mut Vec<Material>| {
+                    if let CredentialV1::Identity(x) = &mut p.verifiable_credentials[i] {
+                        x.proof.proof_value.identity_attributes_proofs.signature = o2.proof.proof_value.identity_attributes_proofs.signature.clone();
+                    }
+                });
+                let o3 = oid.clone();
+                m!(format!("credential {i}: sharing coefficient commitments of another presentation"), Reject, move |p: &mut Pres, _: &mut Vec<Material>| {
+                    if let CredentialV1::Identity(x) = &mut p.verifiable_credentials[i] {
+                        x.proof.proof_value.identity_attributes_proofs.cmm_id_cred_sec_sharing_coeff = o3.proof.proof_value.identity_attributes_proofs.cmm_id_cred_sec_sharing_coeff.clone();
+                    }
+                });
+                let o4 = oid.clone();
+                m!(format!("credential {i}: whole identity attribute proofs of another presentation"), Reject, move |p: &mut Pres, _: &mut Vec<Material>| {
+                    if let CredentialV1::Identity(x) = &mut p.verifiable_credentials[i] {
+                        x.proof.proof_value.identity_attributes_proofs = o4.proof.proof_value.identity_attributes_proofs.clone();
+                    }
+                });
+                m!(format!("credential {i}: last sharing coefficient commitment dropped"), Reject, move |p: &mut Pres, _: &mut Vec<Material>| {
+                    if let CredentialV1::Identity(x) = &mut p.verifiable_credentials[i] {
+                        x.proof.proof_value.identity_attributes_proofs.cmm_id_cred_sec_sharing_coeff.pop();
+                    }
+                });
+                // verification material
+                let sip = spare_id.ip_info.clone();
+                m!(format!("material {i}: another identity provider's keys under the same identity number"), Reject, move |_: &mut Pres, vm: &mut Vec<Material>| {
+                    if let CredentialVerificationMaterial::Identity(x) = &mut vm[i] {
+                        let id = x.ip_info.ip_identity;
+                        x.ip_info = sip.clone();
+                        x.ip_info.ip_identity = id;
+                    }
+                });
+                let sars = spare_id.ars_infos.clone();
+                m!(format!("material {i}: other anonymity revoker keys under the same identities"), Reject, move |_: &mut Pres, vm: &mut Vec<Material>| {
+                    if let CredentialVerificationMaterial::Identity(x) = &mut vm[i] {
+                        x.ars_infos = sars.clone();
+                    }
+                });
+                m!(format!("material {i}: one anonymity revoker missing"), Reject, move |_: &mut Pres, vm: &mut Vec<Material>| {
+                    if let CredentialVerificationMaterial::Identity(x) = &mut vm[i] {
+                        let k = *x.ars_infos.anonymity_revokers.keys().next().unwrap();
+                        x.ars_infos.anonymity_revokers.remove(&k);
+                    }
+                });
+                let am = CredentialVerificationMaterial::Account(AccountCredentialVerificationMaterial { issuer: idc.ip_info.ip_identity, attribute_commitments: spare_acc.cmms.clone() });
+                m!(format!("material {i}: account material for an identity credential"), Reject, move |_: &mut Pres, vm: &mut Vec<Material>| vm[i] = am.clone());
+            }
+        }
+    }
+    // --- shape ---------------------------------------------------------------------------------------
+    m!("material: last entry dropped", Reject, |_: &mut Pres, vm: &mut Vec<Material>| {
+        vm.pop();
+    });
+    m!("material: last entry duplicated", Reject, |_: &mut Pres, vm: &mut Vec<Material>| {
+        let l = vm.last().unwrap().clone();
+        vm.push(l);
+    });
+    if creds.len() == 2 {
+        m!("material: entries swapped", Reject, |_: &mut Pres, vm: &mut Vec<Material>| vm.swap(0, 1));
+        m!("credentials swapped (material swapped along)", RejectOrOtherRequest, |p: &mut Pres, vm: &mut Vec<Material>| {
+            p.verifiable_credentials.swap(0, 1);
+            vm.swap(0, 1);
+        });
+        m!("last credential dropped (with its material)", RejectOrOtherRequest, |p: &mut Pres, vm: &mut Vec<Material>| {
+            p.verifiable_credentials.pop();
+            vm.pop();
+        });
+    }
+    m
+}
+
+// -----------------------------------------------------------------------------------------------
+// anchored request verification
+// -----------------------------------------------------------------------------------------------
+
+struct AnchorCase {
+    global:   GlobalContext<C>,
+    vctx:     VerificationContext,
+    request:  VerificationRequest,
+    pres:     Pres,
+    anchor:   VerificationRequestAnchorAndBlockHash,
+    material: Vec<VerificationMaterialWithValidity>,
+}
+
+impl AnchorCase {
+    fn run(&self) -> PresentationVerificationResult { verify_presentation_with_request_anchor(&self.global, &self.vctx, &self.request, &self.pres, &self.anchor, &self.material) }
+
+    fn clone_case(&self) -> AnchorCase { AnchorCase { global: self.global.clone(), vctx: self.vctx.clone(), request: self.request.clone(), pres: self.pres.clone(), anchor: self.anchor.clone(), material: self.material.clone() } }
+
+    fn re_anchor(&mut self) {
+        let data = VerificationRequestData { context: self.request.context.clone(), subject_claims: self.request.subject_claims.clone() };
+        self.anchor.verification_request_anchor = data.to_anchor(None);
+    }
+}
+
+fn requested(a: &AtomV1) -> RequestedStatement<AttributeTag> {
+    match mk_v1(a) {
+        AtomicStatementV1::AttributeValue(s) => RequestedStatement::RevealAttribute(RevealAttributeStatement { attribute_tag: s.attribute_tag }),
+        AtomicStatementV1::AttributeInRange(s) => RequestedStatement::AttributeInRange(s),
+        AtomicStatementV1::AttributeInSet(s) => RequestedStatement::AttributeInSet(s),
+        AtomicStatementV1::AttributeNotInSet(s) => RequestedStatement::AttributeNotInSet(s),
+    }
+}
+
+fn anchor_layer(report: &Report, cli: &Cli, global: &GlobalContext<C>, creds: &[(&str, &CredV1)], atoms: &[AtomV1]) {
+    let unfilled = UnfilledContextInformation {
+        given:     vec![LabeledContextProperty::Nonce(Nonce([1u8; 32])), LabeledContextProperty::ConnectionId("testconnection".into()), LabeledContextProperty::ResourceId("testresource".into())],
+        requested: vec![ContextLabel::BlockHash],
+    };
+    let ctx = ContextInformation { given: unfilled.given.iter().map(|p| p.to_context_property()).collect(), requested: vec![LabeledContextProperty::BlockHash(block_hash()).to_context_property()] };
+    for (name, cred) in creds {
+        let base_w = json!({"layer": "web3id-v1-anchored-request", "credential": name});
+        let claims = RequestedIdentitySubjectClaims {
+            statements: atoms.iter().map(requested).collect(),
+            issuers:    vec![IdentityProviderDid::new(99, Network::Testnet), IdentityProviderDid::new(cred.issuer().0, Network::Testnet)],
+            source:     vec![IdentityCredentialType::IdentityCredential, IdentityCredentialType::AccountCredential],
+        };
+        let request = VerificationRequest { context: unfilled.clone(), subject_claims: vec![RequestedSubjectClaims::Identity(claims)], anchor_transaction_hash: hashes::TransactionHash::from([5u8; 32]) };
+        let (_, res) = prove_v1(global, &ctx, &[(*cred, atoms.to_vec())], cli.seed, now());
+        let Ok(pres) = res else {
+            report.violation("true-statement-not-provable", base_w, json!({}));
+            continue;
+        };
+        let validity = CredentialValidity { valid_to: YearMonth::new(2024, 5).unwrap(), created_at: YearMonth::new(2020, 5).unwrap() };
+        let valid_from = validity.created_at.lower().unwrap();
+        let valid_until = validity.valid_to.upper().unwrap();
+        let mut base = AnchorCase {
+            global: global.clone(),
+            vctx: VerificationContext { network: Network::Testnet, validity_time: now() },
+            request,
+            pres,
+            anchor: VerificationRequestAnchorAndBlockHash { verification_request_anchor: VerificationRequestData { context: unfilled.clone(), subject_claims: vec![] }.to_anchor(None), block_hash: block_hash() },
+            material: vec![VerificationMaterialWithValidity { verification_material: cred.material(), validity: CredentialValidityType::ValidityPeriod(validity.clone()) }],
+        };
+        base.re_anchor();
+        case(report, base_w.clone(), || {
+            report.trace(1);
+            match base.run() {
+                PresentationVerificationResult::Verified => Ok(()),
+                PresentationVerificationResult::Failed(f) => fail("valid-anchored-presentation-rejected", json!(format!("{f:?}"))),
+            }
+        });
+        type AMut = Box<dyn Fn(&mut AnchorCase) + Send + Sync>;
+        let mut muts: Vec<(String, bool, AMut)> = vec![];
+        macro_rules! a {
+            ($name:expr, $ok:expr, $f:expr) => {
+                muts.push(($name.to_string(), $ok, Box::new($f)));
+            };
+        }
+        // validity window: [first instant of created_at, first instant after valid_to)
+        a!("time: first instant of the validity period", true, move |c: &mut AnchorCase| c.vctx.validity_time = valid_from);
+        a!("time: one millisecond before the validity period", false, move |c: &mut AnchorCase| c.vctx.validity_time = valid_from - chrono::Duration::milliseconds(1));
+        a!("time: last millisecond of the validity period", true, move |c: &mut AnchorCase| c.vctx.validity_time = valid_until - chrono::Duration::milliseconds(1));
+        a!("time: first instant after the validity period", false, move |c: &mut AnchorCase| c.vctx.validity_time = valid_until);
+        a!("verification context: mainnet", false, |c: &mut AnchorCase| c.vctx.network = Network::Mainnet);
+        a!("anchor: hash bit flipped", false, |c: &mut AnchorCase| {
+            let mut b: [u8; 32] = c.anchor.verification_request_anchor.hash.as_ref().try_into().unwrap();
+            b[0] ^= 1;
+            c.anchor.verification_request_anchor.hash = hashes::Hash::from(b);
+        });
+        a!("anchor: registered in another block", false, |c: &mut AnchorCase| c.anchor.block_hash = hashes::BlockHash::from([3u8; 32]));
+        a!("anchor: other transaction hash in the request (not part of the anchored data)", true, |c: &mut AnchorCase| c.request.anchor_transaction_hash = hashes::TransactionHash::from([6u8; 32]));
+        for re in [false, true] {
+            let sfx = if re { " (anchor recomputed)" } else { "" };
+            for (k, at) in atoms.iter().enumerate() {
+                for (label, alt) in alterations_v1(at, web3_alphabets().len() as u8) {
+                    // "equals x" is requested as "reveal": altering only x does not change the request
+                    if matches!((&at.st, &alt.st), (StV1::Value(_), StV1::Value(_))) && at.tag == alt.tag {
+                        continue;
+                    }
+                    let rs = requested(&alt);
+                    a!(format!("request statement {k}: {label}{sfx}"), false, move |c: &mut AnchorCase| {
+                        let RequestedSubjectClaims::Identity(cl) = &mut c.request.subject_claims[0];
+                        cl.statements[k] = rs.clone();
+                        if re {
+                            c.re_anchor()
+                        }
+                    });
+                }
+            }
+            a!(format!("request: last statement dropped{sfx}"), false, move |c: &mut AnchorCase| {
+                let RequestedSubjectClaims::Identity(cl) = &mut c.request.subject_claims[0];
+                cl.statements.pop();
+                if re {
+                    c.re_anchor()
+                }
+            });
+            a!(format!("request: statements 0 and 1 swapped{sfx}"), false, move |c: &mut AnchorCase| {
+                let RequestedSubjectClaims::Identity(cl) = &mut c.request.subject_claims[0];
+                cl.statements.swap(0, 1);
+                if re {
+                    c.re_anchor()
+                }
+            });
+            a!(format!("request: a second subject claim{sfx}"), false, move |c: &mut AnchorCase| {
+                let x = c.request.subject_claims[0].clone();
+                c.request.subject_claims.push(x);
+                if re {
+                    c.re_anchor()
+                }
+            });
+            a!(format!("request: no subject claims{sfx}"), false, move |c: &mut AnchorCase| {
+                c.request.subject_claims.clear();
+                if re {
+                    c.re_anchor()
+                }
+            });
+            a!(format!("request: the credential's issuer not among the allowed issuers{sfx}"), false, move |c: &mut AnchorCase| {
+                let RequestedSubjectClaims::Identity(cl) = &mut c.request.subject_claims[0];
+                cl.issuers.pop();
+                if re {
+                    c.re_anchor()
+                }
+            });
+            a!(format!("request: the issuer allowed on mainnet only{sfx}"), false, move |c: &mut AnchorCase| {
+                let RequestedSubjectClaims::Identity(cl) = &mut c.request.subject_claims[0];
+                cl.issuers.last_mut().unwrap().network = Network::Mainnet;
+                if re {
+                    c.re_anchor()
+                }
+            });
+            let is_acc = matches!(cred, CredV1::Acc(_));
+            a!(format!("request: the credential's kind not among the allowed sources{sfx}"), false, move |c: &mut AnchorCase| {
+                let RequestedSubjectClaims::Identity(cl) = &mut c.request.subject_claims[0];
+                cl.source = vec![if is_acc { IdentityCredentialType::IdentityCredential } else { IdentityCredentialType::AccountCredential }];
+                if re {
+                    c.re_anchor()
+                }
+            });
+            a!(format!("request context: nonce altered{sfx}"), false, move |c: &mut AnchorCase| {
+                c.request.context.given[0] = LabeledContextProperty::Nonce(Nonce([9u8; 32]));
+                if re {
+                    c.re_anchor()
+                }
+            });
+            a!(format!("request context: given properties reordered{sfx}"), false, move |c: &mut AnchorCase| {
+                c.request.context.given.swap(1, 2);
+                if re {
+                    c.re_anchor()
+                }
+            });
+            a!(format!("request context: connection id given as resource id{sfx}"), false, move |c: &mut AnchorCase| {
+                c.request.context.given[1] = LabeledContextProperty::ResourceId("testconnection".into());
+                if re {
+                    c.re_anchor()
+                }
+            });
+            a!(format!("request context: a further requested label{sfx}"), false, move |c: &mut AnchorCase| {
+                c.request.context.requested.push(ContextLabel::PaymentHash);
+                if re {
+                    c.re_anchor()
+                }
+            });
+            a!(format!("request context: nothing requested{sfx}"), false, move |c: &mut AnchorCase| {
+                c.request.context.requested.clear();
+                if re {
+                    c.re_anchor()
+                }
+            });
+        }
+        // presentation side
+        a!("presentation: context nonce altered", false, |c: &mut AnchorCase| c.pres.presentation_context.given[0].context = hex::encode([9u8; 32]));
+        a!("presentation: unknown context label", false, |c: &mut AnchorCase| c.pres.presentation_context.given[2].label = "Unknown".into());
+        a!("presentation: block hash not a hash", false, |c: &mut AnchorCase| c.pres.presentation_context.requested[0].context = "zz".into());
+        a!("presentation: block hash property missing", false, |c: &mut AnchorCase| c.pres.presentation_context.requested.clear());
+        a!("presentation: statement proof dropped", false, |c: &mut AnchorCase| {
+            proofs_mut(&mut c.pres.verifiable_credentials[0]).pop();
+        });
+        a!("presentation: credential on mainnet", false, |c: &mut AnchorCase| match &mut c.pres.verifiable_credentials[0] {
+            CredentialV1::Account(a) => a.subject.network = Network::Mainnet,
+            CredentialV1::Identity(x) => x.subject.network = Network::Mainnet,
+        });
+        a!("material: none", false, |c: &mut AnchorCase| c.material.clear());
+        a!("material: validity period ended a month earlier than 'now' (validity as supplied by the caller)", false, |c: &mut AnchorCase| {
+            c.material[0].validity = CredentialValidityType::ValidityPeriod(CredentialValidity { valid_to: YearMonth::new(2023, 7).unwrap(), created_at: YearMonth::new(2020, 5).unwrap() });
+        });
+        report.set_extra(&format!("layer_c_anchor_perturbations_{name}"), json!(muts.len()));
+        muts.par_iter().for_each(|(label, ok, f)| {
+            let mut w = base_w.clone();
+            w["perturbation"] = json!(label);
+            case(report, w, || {
+                let mut c = base.clone_case();
+                f(&mut c);
+                report.trace(1);
+                match (c.run(), ok) {
+                    (PresentationVerificationResult::Verified, true) => report.outcome("anchored: accepted as expected", 1),
+                    (PresentationVerificationResult::Failed(x), false) => report.outcome(&format!("anchored: rejected ({x:?})"), 1),
+                    (PresentationVerificationResult::Verified, false) => return fail("altered-anchored-verification-succeeds", json!({"what": label})),
+                    (PresentationVerificationResult::Failed(x), true) => return fail("valid-anchored-presentation-rejected", json!({"what": label, "failure": format!("{x:?}")})),
+                }
+                Ok(())
+            });
+        });
+    }
+}
+
+pub fn layer_c(report: &Report, cli: &Cli, global: &GlobalContext<C>) {
+    let quick = cli.tier == Tier::Quick;
+    let acc = CredV1::Acc(acc_cred(cli.seed, 10, global));
+    let idc = CredV1::Id(id_cred(cli.seed, 0, global));
+    let spare_acc = acc_cred(cli.seed, 11, global);
+    let spare_id = id_cred(cli.seed, 1, global);
+    let alph = web3_alphabets();
+    // C1: every atomic statement on either credential kind (quick: reduced range pairs on
+    // the identity-based credential)
+    let mut singles: Vec<(&CredV1, AtomV1)> = vec![];
+    for cred in [&acc, &idc] {
+        for (t, (v, nb)) in alph.iter().enumerate() {
+            for a in atoms_v1(t as u8, v, nb, !quick || cred.kind() == Kind::Account) {
+                singles.push((cred, a));
+            }
+        }
+    }
+    report.set_extra("layer_c_single_statements", json!(singles.len()));
+    singles.par_iter().for_each(|(cred, a)| {
+        case(report, json!({"layer": "web3id-v1-presentation", "credential": format!("{:?}", cred.kind()), "statements": [describe_v1(a)]}), || truth_case(report, cli, global, cred, std::slice::from_ref(a)));
+    });
+    // C2: ordered pairs of the reduced alphabet (same-tag pairs switch an "equals" statement
+    // of an identity credential from the reveal path to the commitment path)
+    let ntag_pairs = if quick { 2 } else { alph.len() };
+    let reduced: Vec<AtomV1> = alph.iter().enumerate().filter(|(t, _)| *t == 3 || *t < ntag_pairs).flat_map(|(t, (v, nb))| {
+        let mut r = reduced_v1(t as u8, v, nb);
+        if t == 3 {
+            // Numeric(0) vs String(""): same embedding, other representation
+            r.push(AtomV1 { tag: 3, st: StV1::Value(ws("")) });
+        }
+        r
+    }).collect();
+    let mut pairs: Vec<(&CredV1, AtomV1, AtomV1)> = vec![];
+    for cred in [&idc, &acc] {
+        for a in &reduced {
+            for b in &reduced {
+                if quick && cred.kind() == Kind::Account && a.tag != b.tag {
+                    continue;
+                }
+                pairs.push((cred, a.clone(), b.clone()));
+            }
+        }
+    }
+    report.set_extra("layer_c_statement_pairs", json!(pairs.len()));
+    pairs.par_iter().for_each(|(cred, a, b)| {
+        case(report, json!({"layer": "web3id-v1-presentation", "credential": format!("{:?}", cred.kind()), "statements": [describe_v1(a), describe_v1(b)]}), || truth_case(report, cli, global, cred, &[a.clone(), b.clone()]));
+    });
+    // C3: perturbations
+    let pick = |t: usize, f: &dyn Fn(&St<W>) -> bool| -> AtomV1 {
+        let a = atoms_around(t as u8, &alph[t].0, &alph[t].1, true).into_iter().find(|a| f(&a.st) && truth(&a.st, &alph[t].0) == Truth::True).unwrap();
+        AtomV1 { tag: a.tag, st: StV1::Other(a.st) }
+    };
+    let four = vec![AtomV1 { tag: 5, st: StV1::Value(alph[5].0.clone()) }, pick(1, &|s| matches!(s, St::Range(..))), pick(0, &|s| matches!(s, St::InSet(x) if x.len() == 3)), pick(2, &|s| matches!(s, St::NotInSet(x) if x.len() == 2))];
+    let two = vec![pick(2, &|s| matches!(s, St::Range(..))), AtomV1 { tag: 0, st: StV1::Value(alph[0].0.clone()) }];
+    let bases: Vec<(&str, Vec<(&CredV1, Vec<AtomV1>)>)> = vec![("account", vec![(&acc, four.clone())]), ("identity", vec![(&idc, four.clone())]), ("account+identity", vec![(&acc, two.clone()), (&idc, two.clone())]), ("identity+account", vec![(&idc, two.clone()), (&acc, two.clone())])];
+    for (name, creds) in &bases {
+        let base_w = json!({"layer": "web3id-v1-presentation-perturbation", "credentials": name});
+        let (request, res) = prove_v1(global, &context(), creds, cli.seed, now());
+        let mut ctx2 = context();
+        ctx2.given[0].context = hex::encode([4u8; 32]);
+        let (_, res_other) = prove_v1(global, &ctx2, creds, cli.seed + 1, now());
+        let (Ok(pres), Ok(other)) = (res, res_other) else {
+            report.violation("true-statement-not-provable", base_w, json!({}));
+            continue;
+        };
+        let material: Vec<Material> = creds.iter().map(|(c, _)| c.material()).collect();
+        match pres.verify(global, material.iter()) {
+            Ok(r) if r == request => {}
+            x => {
+                report.violation("true-statement-proof-rejected", base_w, json!({"result": format!("{:?}", x.err())}));
+                continue;
+            }
+        }
+        let muts = perturbations(cli, global, creds, &other, &spare_acc, &spare_id);
+        report.set_extra(&format!("layer_c_perturbations_{name}"), json!(muts.len()));
+        muts.par_iter().for_each(|(label, expect, f)| {
+            let mut w = base_w.clone();
+            w["perturbation"] = json!(label);
+            case(report, w, || {
+                let mut p = pres.clone();
+                let mut vm = material.clone();
+                f(&mut p, &mut vm);
+                if p == pres && vm == material {
+                    return fail("machinery: perturbation changed nothing", json!({"what": label}));
+                }
+                report.trace(1);
+                match p.verify(global, vm.iter()) {
+                    Err(e) => report.outcome(&format!("perturbation rejected: {e:?}"), 1),
+                    Ok(r) => {
+                        if *expect == Expect::Reject {
+                            return fail("altered-presentation-verifies", json!({"what": label}));
+                        }
+                        if r == request {
+                            return fail("altered-presentation-verifies-for-the-original-request", json!({"what": label}));
+                        }
+                        report.outcome("perturbation accepted for a different request (read back by the verifier)", 1);
+                    }
+                }
+                Ok(())
+            });
+        });
+        // bit flips of the serialised presentation (quick: single-credential bases, strided)
+        if creds.len() == 1 || !quick {
+            let bytes = to_bytes(&pres);
+            let stride = if quick { 29 } else { 1 };
+            (0..bytes.len() * 8).into_par_iter().filter(|b| b % stride == 0).for_each(|bit| {
+                let mut w = base_w.clone();
+                w["presentation_bit_flip"] = json!(bit);
+                case(report, w, || {
+                    let Ok(p) = from_bytes::<Pres, _>(&mut &flip(&bytes, bit)[..]) else {
+                        report.outcome("bit flip unparsable", 1);
+                        return Ok(());
+                    };
+                    if p == pres {
+                        report.outcome("bit flip decodes to the same presentation", 1);
+                        return Ok(());
+                    }
+                    if p.presentation_context == pres.presentation_context && p.verifiable_credentials == pres.verifiable_credentials {
+                        // only the (empty) linking proof's timestamp / type differs: not bound, reported metadata
+                        report.outcome("bit flip in the linking proof timestamp (unbound metadata)", 1);
+                        return Ok(());
+                    }
+                    report.trace(1);
+                    match p.verify(global, material.iter()) {
+                        Err(_) => report.outcome("bit flip rejected", 1),
+                        Ok(r) if r != request => report.outcome("bit flip accepted for a different request", 1),
+                        Ok(_) => return fail("altered-presentation-verifies-for-the-original-request", json!({"bit": bit})),
+                    }
+                    Ok(())
+                });
+            });
+        }
+    }
+    // C4: anchored request verification
+    anchor_layer(report, cli, global, &[("account", &acc), ("identity", &idc)], &four);
+    let _ = wn;
+    let _: Option<CredentialRegistrationID> = None;
+}
